@@ -136,6 +136,10 @@ class FaultTableMonitor(Monitor):
             w.fs_fault is not None and rec.exc.cls in ("FileNotFoundError", "PermissionError")
         ):
             w.violate("C14.fault_call_raises", f"{rec.ent}.{rec.hk} {rec.exc!r} faults={[(f[0], f[2]) for f in rec.faults]}", rec.exc.msg)
+        # "the transaction then continues (ignore)": after an ignored fault the handler must go on working, i.e. later
+        # calls must not fail with a raw error (unless the simulated filestore was made to fail in that very call)
+        if rec.exc is not None and not rec.exc.is_lib and rec.vfs_rejects == 0 and any(k == key for (k, _c) in self.ignored):
+            w.violate("C14.raises_after_ignored_fault", f"{rec.ent}.{rec.hk} {rec.exc!r} in={rec.inb_kind} step={rec.pre.step} ignored={sorted(c for (k, c) in self.ignored if k == key)}", rec.exc.msg)
         # --- receiver: a cancel must reach user and peer, and soon (nothing from the peer is needed for it)
         if key in self.pending_cancel and not fin_inds and not rec.faults:
             self.waiting[key] = self.waiting.get(key, 0) + 1
